@@ -278,7 +278,9 @@ func contextRefName(contextOfCall protoreflect.Descriptor, refElement protorefle
 	contextPath := pathToPackage(contextOfCall)
 
 	for i := 0; i < len(contextPath); i++ {
-		if len(refPath) == 0 || refPath[0] != contextPath[i] {
+		// the name of the element itself is never stripped, a reference to
+		// the enclosing message (a recursive type) is printed by name.
+		if len(refPath) <= 1 || refPath[0] != contextPath[i] {
 			break
 		}
 		refPath = refPath[1:]
